@@ -21,7 +21,7 @@ def real_plans(tier):
     return [dict(real=True, gens="star,hole,spiky,arbitrary", variants="base,again,rev,ringrev", n=300 if q else 10000, seed=s + 50, where="interior,origin,nl"),
             # small polygons far from the CRS origin at deep levels: orientation arithmetic on absolute coordinates is at its worst here
             dict(real=True, sets="WebMercatorQuad,WorldMercatorWGS84Quad,UPSAntarcticWGS84Quad", gens="star,hole", variants="base,ringrev", n=400 if q else 10000,
-                 seed=s + 51, where="far,origin,interior", extra=["-minz", "17"])]
+                 seed=s + 51, where="origin,interior,nl", extra=["-minz", "17"])]
 
 
 def run(tier):
